@@ -180,7 +180,14 @@ class _Frame:
 
     def cone(self, node: ast.AST, cones: dict) -> set[str]:
         toks: set[str] = set()
+        # the test of a conditional expression decides which value is taken, it is not part of the value (as for an `if` statement)
+        skip: set[int] = set()
         for n in ast.walk(node):
+            if isinstance(n, ast.IfExp):
+                skip |= {id(x) for x in ast.walk(n.test)}
+        for n in ast.walk(node):
+            if id(n) in skip:
+                continue
             if isinstance(n, ast.Attribute) and n.attr in self.it.vocab:
                 toks.add(n.attr)
             if isinstance(n, ast.Name):
@@ -406,7 +413,13 @@ class _Frame:
                     continue
                 self._walrus(val, cones)
                 if isinstance(tgt, ast.Name):
-                    if isinstance(val, (ast.List, ast.Tuple, ast.ListComp)) or (isinstance(val, ast.Call) and isinstance(val.func, ast.Name) and val.func.id in ("list", "tuple")):
+                    snapshot = isinstance(val, ast.Call) and isinstance(val.func, ast.Name) and val.func.id in ("list", "tuple") and len(val.args) == 1 and (
+                        (isinstance(val.args[0], ast.Call) and isinstance(val.args[0].func, ast.Name) and val.args[0].func.id in ("zip", "enumerate", "reversed"))
+                        or isinstance(val.args[0], ast.Attribute))
+                    if snapshot:
+                        # `xs = list(zip(a, b))`: a name for an iteration domain, not a list under construction
+                        env[tgt.id] = val
+                    elif isinstance(val, (ast.List, ast.Tuple, ast.ListComp)) or (isinstance(val, ast.Call) and isinstance(val.func, ast.Name) and val.func.id in ("list", "tuple")):
                         items = self.seq_of(val, env, cones, ren, depth)
                         env[tgt.id] = _AList(items)
                     elif isinstance(val, ast.GeneratorExp):
@@ -495,7 +508,11 @@ class _Frame:
                 env2 = dict(env)
                 cones2 = dict(cones)
                 cones2[st.target.id] = self.cone(e, cones)
-                self.block(st.body, env2, cones2, ren2, depth + 1)
+                body = st.body
+                if not isinstance(e, ast.Constant):
+                    # a loop over a literal tuple of names (classes, say): each round is the body with that name in place of the variable
+                    body = [ast.fix_missing_locations(norm._Subst(st.target.id, e).visit(copy.deepcopy(x))) for x in st.body]
+                self.block(body, env2, cones2, ren2, depth + 1)
             return
         env2 = dict(env)
         deltas = {k: _AList() for k in lists}
@@ -503,6 +520,16 @@ class _Frame:
         cones2 = dict(cones)
         for v in tv:
             cones2[v] = self.cone(st.iter, cones)
+        # `for a, b in zip(A, B)`: a comes from A only, b from B only
+        tgt_, it_ = st.target, st.iter
+        if isinstance(it_, ast.Call) and isinstance(it_.func, ast.Name) and it_.func.id == "enumerate" and it_.args and isinstance(tgt_, ast.Tuple) and len(tgt_.elts) == 2:
+            tgt_, it_ = tgt_.elts[1], it_.args[0]
+        if isinstance(it_, ast.Call) and isinstance(it_.func, ast.Name) and it_.func.id == "zip" and isinstance(tgt_, ast.Tuple) and len(tgt_.elts) == len(it_.args) \
+                and not any(isinstance(a, ast.Starred) for a in it_.args):
+            for t_el, a_el in zip(tgt_.elts, it_.args):
+                for nm in ast.walk(t_el):
+                    if isinstance(nm, ast.Name):
+                        cones2[nm.id] = self.cone(a_el, cones)
         self.block(st.body, env2, cones2, ren2, depth + 1)
         for k, d in deltas.items():
             if d.items:
@@ -536,7 +563,13 @@ class _Frame:
                 # else leaves: the rest belongs to the then side
                 eA, dA, cA, howA = run([*st.body, *rest])
                 consumed = True
-        cond = self.cond(st.test, ren)
+        test_c = norm.canon(st.test)
+        if norm.is_not(test_c):
+            # `if not c: continue` in front of the rest: the same shape as `if c: rest`
+            cond = self.cond(test_c.operand, ren)  # type: ignore[attr-defined]
+            eA, dA, cA, howA, eB, dB, cB, howB = eB, dB, cB, howB, eA, dA, cA, howA
+        else:
+            cond = self.cond(st.test, ren)
         for k in lists:
             # a tracked list that is re-bound inside a branch (e.g. `xs = xs[:n]`)
             reA, reB = eA.get(k) is not dA[k], eB.get(k) is not dB[k]
